@@ -104,6 +104,9 @@ def St.mutate (s : St) (f : Field) : St :=
   let s1 := if s.saved f = s.cur f then s.setSaved f s.next else s
   { (s1.setCur f s.next) with next := s.next + 1 }
 
+/-- well-formed state: the version counter is above every version held by a field -/
+def St.WF (st : St) : Prop := ∀ f, st.cur f < st.next
+
 /-- Outcomes: the verdicts of sub-parsers and all branch decisions, consumed left to right.
 An exhausted sequence answers `false` (= "does not raise", "else branch", "leave the loop"). -/
 abbrev Outcomes := List Bool
@@ -379,7 +382,7 @@ def guardedFirst : Stmt → Bool
 
 /-- initial concrete state for drivers/examples: field `f` holds version `f`, backups hold junk -/
 def St.init (readonly : Bool) : St :=
-  { cur := fun f => f, saved := fun _ => 1000000, flags := fun _ => false, readonly := readonly,
+  { cur := fun f => if f < 1000000 then f else 0, saved := fun _ => 1000000, flags := fun _ => false, readonly := readonly,
     next := 2000000, trace := [] }
 
 end CssVerif.Mutators
